@@ -41,7 +41,8 @@ use tu_verif::refs;
 use tu_verif::run::Run;
 
 /// (à: its UTF-8 encoding C3 A0 ends in the byte that is NBSP in Latin-1)
-const ALPHA: [&str; 11] = ["a", "ä", " ", "\t", "\n", "\r", "\u{a0}", "\u{3000}", "\u{200b}", "\u{301}", "\u{e0}"];
+/// (U+FEFF: the byte order mark, a zero-width character that is not White_Space)
+const ALPHA: [&str; 12] = ["a", "ä", " ", "\t", "\n", "\r", "\u{a0}", "\u{3000}", "\u{200b}", "\u{301}", "\u{e0}", "\u{feff}"];
 /// strings per enumeration unit (consecutive shortlex indices)
 const BLOCK: u64 = 128;
 
